@@ -4,6 +4,7 @@ package main
 // each query in its own push/pop frame.
 
 import (
+	"runtime"
 	"bufio"
 	"fmt"
 	"io"
@@ -218,6 +219,8 @@ func flattenConj(asserts []*Term) []*Term {
 // solver's stack (one push level each); the next Check pops only what differs, so queries
 // along one path (and its forks) share all solver work on the common prefix.
 // After Sat the model stays available for Values until the next Check.
+var slowQ = func() float64 { v, _ := strconv.ParseFloat(os.Getenv("GOSYM_SLOWQ"), 64); return v }()
+
 func (s *Solver) Check(asserts []*Term) Result {
 	s.open = false
 	conj := And(asserts...)
@@ -229,7 +232,24 @@ func (s *Solver) Check(asserts []*Term) Result {
 		return r
 	}
 	t0 := time.Now()
-	defer func() { s.Wall += time.Since(t0) }()
+	defer func() {
+		d := time.Since(t0)
+		s.Wall += d
+		if slowQ > 0 && d.Seconds() >= slowQ && dbgEngine != nil {
+			var pcs [12]uintptr
+			n := runtime.Callers(2, pcs[:])
+			fr := runtime.CallersFrames(pcs[:n])
+			var names []string
+			for {
+				f, more := fr.Next()
+				names = append(names, strings.TrimPrefix(f.Function, "main."))
+				if !more {
+					break
+				}
+			}
+			fmt.Fprintf(os.Stderr, "SLOWQ %.1fs conjuncts=%d in %v via %v\n", d.Seconds(), len(asserts), dbgEngine.curFn, names)
+		}
+	}()
 	as := flattenConj(asserts)
 	k := 0
 	for k < len(as) && k < len(s.stack) && as[k] == s.stack[k] {
